@@ -33,7 +33,7 @@ struct PipeWorld : World {
 
 	// ------------------------------------------------------------ generation
 	void gen(Rng &r, Plan &p, int tier) override {
-		int framing = (int) r.below(4);
+		int framing = (int) r.below(9); if (framing > 4) framing -= 5;      // the four COBS framings, and (less often) zero-terminated command text through the same queues
 		p.set("framing", framing);
 		p.set("layer", 0);
 		static const int caps[] = {8, 16, 24, 40, 64, 100, 256, 257, 300, 512, 700};
@@ -178,6 +178,9 @@ struct PipeWorld : World {
 	struct Run {
 		int framing = 0;
 		std::vector<Bytes> msgs;
+		// what the reader gets for message i: the message itself, for command text preceded by the header the decoder writes
+		Bytes expect(size_t i) const { if (framing != ref::COMMAND) return msgs[i]; Bytes e = {0x04, ' '}; e.insert(e.end(), msgs[i].begin(), msgs[i].end()); return e; }
+		void admit() { if (framing == ref::COMMAND) for (auto &m : msgs) for (auto &b : m) if (!b) b = 0x2e; }      // command text admits no zero byte
 		// writer
 		size_t mi = 0, mpos = 0;          // current message, bytes of it handed to the encoder
 		std::vector<size_t> completed;    // indices of messages whose terminate succeeded
@@ -216,8 +219,8 @@ struct PipeWorld : World {
 	}
 	void exec_queue(const Plan &p, Log &log, Stats &st) {
 		Run R;
-		R.framing = (int) p.get("framing") & 3;
-		R.msgs = p.blobs;
+		R.framing = (int) p.get("framing"); if (R.framing < 0 || R.framing > 4) R.framing &= 3;
+		R.msgs = p.blobs; R.admit();
 		if (R.msgs.size() > 12) R.msgs.resize(12);
 		const bool egrow = p.get("egrow") != 0, cxxq = p.get("cxxq") != 0;
 		size_t ecap = (size_t) std::min<int64_t>(std::max<int64_t>(p.get("ecap", 64), 4), 4096);
@@ -359,7 +362,7 @@ struct PipeWorld : World {
 				// safety: received sequence is a prefix of the completed sequence
 				if (R.received >= R.completed.size())
 					fail("invented", "receiver got message #%zu (%zu bytes %s) but the sender completed only %zu", R.received + 1, got.size(), sim::hex(got, 16).c_str(), R.completed.size());
-				const Bytes &want = R.msgs[R.completed[R.received]];
+				const Bytes want = R.expect(R.completed[R.received]);
 				if (got != want) {
 					size_t d = 0; while (d < got.size() && d < want.size() && got[d] == want[d]) ++d;
 					fail("corrupt", "message #%zu arrived as %zu bytes, sent %zu bytes; first difference at %zu (got %s want %s)", R.received + 1, got.size(), want.size(), d,
@@ -385,7 +388,7 @@ struct PipeWorld : World {
 			log.ev("R_PEEK %zu -> %zd", max, r);
 			if (pending >= 0 && r > 0 && max && R.received) {
 				// a complete message is waiting (received, not yet released): the preview is the start of that message
-				const Bytes &want = R.msgs[R.completed[R.received - 1]];
+				const Bytes want = R.expect(R.completed[R.received - 1]);
 				size_t n = std::min<size_t>(std::min<size_t>((size_t) r, max), want.size());
 				for (size_t i = 0; i < n; ++i) if (dst[i] != want[i]) fail("corrupt", "peek reports %zd bytes of the waiting message #%zu but byte %zu of the preview is %02x, the message has %02x there", r, R.received, i, dst[i], want[i]);
 				st.hit("probe:peek_at_waiting_message");
@@ -408,7 +411,7 @@ struct PipeWorld : World {
 				if (R.crashed || R.mi >= R.msgs.size() || R.mpos < R.msgs[R.mi].size()) break;
 				st.hit("op:W_TERM"); w_term(); break;
 			case OP_WABORT: {
-				if (R.crashed || R.mi >= R.msgs.size()) break;
+				if (R.crashed || R.mi >= R.msgs.size() || R.framing == ref::COMMAND) break;      // (dropping messages is exercised for the COBS framings)
 				if (!R.mpos) {
 					// nothing in progress: the request means the last finished message, which can go only while all of it is still queued
 					bool whole = !R.completed.empty() && R.frame_bytes.back() <= R.complete_bytes;
@@ -519,7 +522,7 @@ struct PipeWorld : World {
 			pend("invented", "receiver got message #%zu (%zu bytes %s) but the sender completed only %zu", R.received + 1, len, sim::hex(got, 16).c_str(), R.completed.size());
 			return 0;
 		}
-		const Bytes &want = R.msgs[R.completed[R.received]];
+		const Bytes want = R.expect(R.completed[R.received]);
 		if (got != want) {
 			size_t d = 0; while (d < got.size() && d < want.size() && got[d] == want[d]) ++d;
 			pend("corrupt", "message #%zu arrived as %zu bytes, sent %zu bytes; first difference at %zu (got %s want %s)", R.received + 1, got.size(), want.size(), d,
@@ -532,8 +535,8 @@ struct PipeWorld : World {
 	}
 	void exec_stream(const Plan &p, Log &log, Stats &st) {
 		Run R;
-		R.framing = (int) p.get("framing") & 3;
-		R.msgs = p.blobs;
+		R.framing = (int) p.get("framing"); if (R.framing < 0 || R.framing > 4) R.framing &= 3;
+		R.msgs = p.blobs; R.admit();
 		if (R.msgs.size() > 12) R.msgs.resize(12);
 		size_t chancap = (size_t) std::min<int64_t>(std::max<int64_t>(p.get("chancap", 4096), 1), 1 << 20);
 		int ch = simio::new_chan(chancap);
@@ -668,7 +671,7 @@ struct PipeWorld : World {
 				if (R.crashed || R.mi >= R.msgs.size() || R.mpos < R.msgs[R.mi].size()) break;
 				st.hit("op:W_TERM"); w_term(failn); break;
 			case OP_WABORT: {
-				if (R.crashed || R.mi >= R.msgs.size() || !R.mpos) break;
+				if (R.crashed || R.mi >= R.msgs.size() || !R.mpos || R.framing == ref::COMMAND) break;      // (dropping a message in progress is exercised for the COBS framings)
 				st.hit("op:W_ABORT");
 				ssize_t r; { Sut s; SUT_GUARD_ABORT(r = mpt_stream_push(&ws, 1, 0)); }
 				check_queue(ws._wd, "stream write");
